@@ -306,9 +306,11 @@ def digital_tjm(
                 dag.remove_op_node(node)
 
         # Process measurement barriers (only when sampling layers in strong sim)
-        if isinstance(sim_params, StrongSimParams) and sim_params.sample_layers:
-            for measure_barrier in measure_barriers:
-                dag.remove_op_node(measure_barrier)
+        # Sampling barriers always leave the DAG (otherwise the loop never ends); they are sampled only
+        # when layer sampling is enabled in strong simulation.
+        for measure_barrier in measure_barriers:
+            dag.remove_op_node(measure_barrier)
+            if isinstance(sim_params, StrongSimParams) and sim_params.sample_layers:
                 col_idx += 1
                 state.evaluate_observables(sim_params, results, col_idx)
 
